@@ -231,7 +231,9 @@ def _shape(t, ir):
     k = t[0]
     if k == 'b':
         return ('primitive-' if getattr(ir, 'primitive', False) else 'builtin-') + t[1].replace('Type', '')
-    return {'c': 'class', 'i': 'generic', 'v': 'typevar', 'top': 'top', 'bot': 'bottom'}.get(k, k)
+    if k == 'v':
+        return 'typevar' if t[2] is None else ('typevar-chain' if t[2][0] == 'v' else 'typevar-bounded')
+    return {'c': 'class', 'i': 'generic', 'top': 'top', 'bot': 'bottom'}.get(k, k)
 
 
 def javac_leg(ctx):
